@@ -2,6 +2,7 @@
 import contextlib
 import io
 import math
+import os
 import warnings
 from fractions import Fraction
 
@@ -11,7 +12,9 @@ from . import common
 from .common import Corr, f2hex, hex2f, frac2s, flist, parse_list
 
 ID = "C05"
-LEAN_MODULES = ["TempestVerif.Props.C05", "TempestVerif.Props.C05Warmup", "TempestVerif.Props.C05Pipeline"]
+LEAN_MODULES = ["TempestVerif.Props.C05", "TempestVerif.Props.C05Warmup", "TempestVerif.Props.C05Pipeline",
+                "TempestVerif.Props.C05Closed", "TempestVerif.Props.C05Resume", "TempestVerif.Props.C05Source",
+                "TempestVerif.Props.C05Robust", "TempestVerif.Props.C05Ieee"]
 RULE = ("(i) decision logic: a REAL Reweighter on a real StateManager whose _compute_metric_and_weights is replaced on the instance by a "
         "generated piecewise-constant table over beta (0..6 knots; ESS/metric entries placed around the target: decreasing, arbitrary/"
         "non-monotone, plateaus exactly at target), both modes, prev in {0, knots, grid points, 1}; regime Q: dyadic betas/values/"
@@ -30,20 +33,42 @@ RULE = ("(i) decision logic: a REAL Reweighter on a real StateManager whose _com
         "(vi) dep:pipeline-trace-replay: real ESS-mode Sampler runs (4 kernel x resampler combinations, d in 1..3, n in {8,16,24}) with "
         "all randomness observed, replayed by the Lean pipeline model (concrete oracle = C04 weights -> exp(logw-max) -> C20 ESS); "
         "compared here: beta, ESS, logz-after-reweighting per iteration (1e-9 / 1e-7), the size of every warm-up batch and beta_k = 0 for "
-        "k < ess_ratio (k = ess_ratio is an exact ESS = target tie, decided by the last ulp in floating point); non-trivial = the run left beta = 0.")
+        "k < ess_ratio (k = ess_ratio is an exact ESS = target tie, decided by the last ulp in floating point); non-trivial = the run left beta = 0. "
+        "(vii) dep:closed-loop-replay: instrumented whole runs (harness/c10cl.py: both kernels/resamplers, clustering on/off, volume-variation "
+        "targets 0.5/0.1/0.05 and ESS mode) replayed by the closed-loop model cl.F (schedule in BOTH metric modes, trimming handed to the "
+        "clusterer, resampled indices, accept masks, number of steps and iterations), plus C05 on the trace itself (n_particles prior draws per "
+        "warm-up iteration, beta_k = 0 for k < ess_ratio in both modes, recorded ESS = ESS at the recorded beta, same weights to trainer and "
+        "resampler); non-trivial = the run left beta = 0. (viii) resume-run: a seeded run with save_every=2 is completed, then continued three "
+        "ways — run(resume_state_path=mid-run checkpoint) on a new sampler, load_state()+run() on a new sampler (the branch added in /repo aeb0399), "
+        "a second run() with a larger n_total on the same sampler — with the observers of (iv) on the continuation: first beta_prev == restored beta "
+        "(bit-exact), history length and iter continue, every continued iteration replays bit-for-bit in the Float model, the schedule never "
+        "decreases, and for path/load the resumed schedule equals the uninterrupted one bit-for-bit; non-trivial = the continuation ran >= 1 iteration. "
+        "(ix) translator G10 regenerates every decision expression, literal and the statement skeleton of reweight.py into Gen/ReweightSrc.lean; "
+        "Props/C05Source.lean proves by rfl (for every scalar type, Float included) that Model.Reweight is built from them.")
 MODELLED = ["numpy/IEEE: the model is executed at Float with the same operations in the same order (bit-exact regime); theorems are over exact reals",
             "Props/C05.lean: _compute_metric_and_weights, compute_logw_and_logz and np.isfinite are PARAMETERS (every function M, Z, fin); "
             "the weights array is a tag naming the beta it was computed for. Props/C05Pipeline.lean + C05Warmup.lean: ESS mode with the concrete "
             "C04/C20 oracle of Model.Pipeline (exp/log = Real.exp/Real.log), randomness and user functions on a universally quantified tape",
             "volume_variation (matrix algebra) is a parameter everywhere (third component of M); the trainer is opaque (its effect is on the tape)",
             "NaN / +-inf oracle values are covered by the Float correspondence only, not by the theorems",
-            "the literal 1e10 (non-finite metric replacement) is hard-coded in the model; the progress bar and the iter counter are not modelled"]
+            "Props/C05Closed.lean + C05Resume.lean: BOTH modes on the closed-loop model (Model.ClosedLoop): the ESS oracle is the concrete C04/C20 "
+            "composition; what stays a parameter is the World (likelihood, prior draws, random stream, trainer/clusterer, proposal generator, the "
+            "volume_variation function itself — its own properties are C20's)",
+            "Props/C05Robust.lean + C05Ieee.lean: NaN answers and rounding of every temperature operation are modelled by FN r (reals + NaN, any "
+            "monotone idempotent rounding with 1/2 representable and exact doubling); +-inf and overflow are not in that instance (an infinite "
+            "oracle answer only meets np.isfinite — an arbitrary parameter — and comparisons with a finite target); termination (fuel) under rounding "
+            "is covered by the Float suites only",
+            "the literals and comparison operators of reweight.py are no longer hard-coded: Gen/ReweightSrc.lean (translator G10) + Props/C05Source.lean; "
+            "the progress bar and the iter counter are not modelled"]
 ASSUMPTIONS = ["H_fn: within one call of run() the oracle is a function of beta (the pool does not change during reweighting) — checked on the real "
                "runs of suite iv, where a beta answered twice differently is a disagreement",
                "volume-variation mode only: between two calls of Reweighter.run nobody but _finalize_iteration writes state['beta'], and the history is "
                "non-empty after the first commit (both PROVED for the ESS-mode pipeline model; checked on the real runs of suite iv)",
                "C05_pipeline_warmup: every warm-up iteration draws n_particles prior samples (checked on the real runs of suite vi)",
-               "C05_dyn_ess_antitone / C05_upper_antitone only: the pool ESS is non-increasing in beta on [beta_prev, 1] (not assumed by any other theorem)"]
+               "C05_dyn_ess_antitone / C05_upper_antitone only: the pool ESS is non-increasing in beta on [beta_prev, 1] (not assumed by any other theorem)",
+               "C05_cl_warmup(_count): the world's prior draw returns n_particles records (checked on every instrumented run of suite vii)",
+               "C05Closed/C05Resume theorems are about runs that stay inside the closed-loop model (runLoop = some …: no IndexError, no batch without a "
+               "finite draw, the loop ends within the fuel) — the replay suite vii checks that the model does not leave its domain on the real runs"]
 
 FUEL = 64
 TOL = 1e-9
@@ -263,6 +288,10 @@ def _gen_F(rng, allow_nonfinite=True):
             for i in range(K + 1):
                 if rng.random() < 0.3:
                     ess[i] = nonfin()
+        if mode == "ess" and rng.random() < 0.06:
+            # a NaN ESS at beta_prev: the only way into the ESS-mode call of _find_beta_bisection (dead code over the reals:
+            # theorems C05_ess_bisection_unreachable / C05_ieee_ess_floor / C05_nan_ess_reaches_bisection)
+            ess[sum(1 for k in knots if k <= prev)] = math.nan
     enc = f2hex
     return {"regime": "F", "mode": mode, "empty": False, "prev": enc(prev), "ratio": enc(ratio), "n": n,
             "vv": enc(vv) if mode == "dyn" else None, "tolE": enc(tolE), "tolB": enc(tolB),
@@ -488,16 +517,40 @@ class _StopRun(Exception):
     """raised by the observer to truncate a long (slowly advancing) run: not an error"""
 
 
-def _record_run(cfg, max_iter=40):
-    """one real Sampler run; per iteration of Reweighter.run: state before/after, every oracle call with its results,
-       the Z calls made by run itself, the returned weights and what Trainer.run / Resampler.run received."""
-    from . import witnesses
+class _TimedOut(Exception):
+    """a real run did not finish within its (very generous) time limit"""
+
+
+CALL_BUDGET = 4000      # oracle calls within ONE Reweighter.run (a correct run makes at most ~50: two searches of <= 14 halvings)
+RUN_SECONDS = 90        # wall-clock limit of one real run (a correct one takes about a second)
+
+
+@contextlib.contextmanager
+def _time_limit(seconds):
+    import signal
+
+    def handler(signum, frame):
+        raise _TimedOut(f"the run did not finish within {seconds} s (a search loop of the reweighting step does not terminate?)")
+    old = signal.signal(signal.SIGALRM, handler)
+    signal.setitimer(signal.ITIMER_REAL, seconds)
+    try:
+        yield
+    finally:
+        signal.setitimer(signal.ITIMER_REAL, 0)
+        signal.signal(signal.SIGALRM, old)
+
+
+def _sampler_kwargs(cfg):
     scale = cfg.get("like_scale", 1.0)
-    kw = dict(clustering=False, volume_variation=cfg["vv"], n_particles=cfg["n_particles"], ess_ratio=cfg["ess_ratio"],
-              random_state=cfg["seed"], n_dim=cfg.get("n_dim", 2), resample=cfg.get("resample", "mult"),
-              log_likelihood=lambda x: -0.5 * scale * float(np.sum(x ** 2)))
-    with _quiet():
-        s = witnesses._mk_sampler(**kw)
+    return dict(clustering=cfg.get("clustering", False), volume_variation=cfg["vv"], n_particles=cfg["n_particles"],
+                ess_ratio=cfg["ess_ratio"], random_state=cfg["seed"], n_dim=cfg.get("n_dim", 2), resample=cfg.get("resample", "mult"),
+                log_likelihood=lambda x: -0.5 * scale * float(np.sum(x ** 2)))
+
+
+def _instrument(s, max_iter=40):
+    """install the observers of suite (iv) on a live Sampler; returns the list that will receive one record per
+       Reweighter.run: state before/after, every oracle call with its results, the Z calls made by run itself, the returned
+       weights and what Trainer.run / Resampler.run received."""
     core = s._core
     rw, sm = core.reweighter, core.state
     its = []
@@ -517,6 +570,8 @@ def _record_run(cfg, max_iter=40):
             depth[0] -= 1
         if "calls" in cur:
             cur["calls"].append((float(beta), np.array(r[0], dtype=float, copy=True), float(r[1]), float(r[2])))
+            if len(cur["calls"]) > CALL_BUDGET:
+                raise RuntimeError(f"more than {CALL_BUDGET} oracle calls within one Reweighter.run (a search loop does not terminate)")
         return r
 
     def z_spy(*a, **k):
@@ -542,6 +597,7 @@ def _record_run(cfg, max_iter=40):
     def train_spy(weights):
         its[-1]["train_same"] = _same_weights(weights, its[-1]["weights"])
         its[-1]["beta_at_train"] = sm.get_current("beta")
+        its[-1]["train_sum"] = float(np.sum(weights))
         return orig_train(weights)
 
     def res_spy(weights):
@@ -553,16 +609,30 @@ def _record_run(cfg, max_iter=40):
     rw.run = run_spy
     core.trainer.run = train_spy
     core.resampler.run = res_spy
-    err = None
+    return its
+
+
+def _run_quiet(fn):
+    """run `fn()` silently; returns an error string or None (the observer's truncation is not an error)"""
     try:
-        with _quiet(), warnings.catch_warnings():
+        with _quiet(), warnings.catch_warnings(), _time_limit(RUN_SECONDS):
             warnings.simplefilter("ignore")
-            s.run(n_total=cfg["n_total"], progress=False)
+            fn()
     except _StopRun:
-        pass
+        return None
     except Exception as e:  # noqa
-        err = f"{type(e).__name__}: {e}"
-    return its, err, rw
+        return f"{type(e).__name__}: {e}"
+    return None
+
+
+def _record_run(cfg, max_iter=40):
+    """one real Sampler run, observed"""
+    from . import witnesses
+    with _quiet():
+        s = witnesses._mk_sampler(**_sampler_kwargs(cfg))
+    its = _instrument(s, max_iter)
+    err = _run_quiet(lambda: s.run(n_total=cfg["n_total"], progress=False))
+    return its, err, s._core.reweighter
 
 
 def _iter_case(it, cfg, rw):
@@ -586,6 +656,71 @@ def _iter_case(it, cfg, rw):
             "ess": [enc(e) for e in ess], "met": [enc(m) for m in met]}, None
 
 
+def _compare_iterations(c, cfg, its, rw, drv, first_is_fresh=True):
+    """replay every observed Reweighter.run of one real run in the Float model (table of the oracle values the real iteration
+       saw) and compare; also the frame conditions between iterations and the hand-off to Trainer.run / Resampler.run"""
+    lines, metas = [], []
+    for k, it in enumerate(its):
+        cs, msg = _iter_case(it, cfg, rw)
+        if cs is None:
+            c.case(("run", cfg, k), False)
+            c.disagree(input=cfg, impl=msg, model="-", run_cfg=cfg, iteration=k)
+            continue
+        lines.append(_line(cs))
+        metas.append((k, it, cs))
+    res = drv.batch(lines)
+    prev_beta = None
+    for (k, it, cs), line, ans in zip(metas, lines, res):
+        model = _parse_model("F", ans)
+        calls = [_canon(b) for b, _, _, _ in it["calls"]]
+        problems = []
+        if model is None:
+            problems.append(f"model answered {ans}")
+        else:
+            c.count("branch:" + model["branch"])
+            for sb in model["sub"].split("+"):
+                if sb != "-":
+                    c.count("sub:" + sb)
+            if model["beta"] != _canon(it["beta"]):
+                problems.append(f"beta: impl {it['beta']!r} model {hex2f(model['beta']) if model['beta'] != 'nan' else 'nan'!r}")
+            if model["calls"] != calls:
+                problems.append(f"oracle call sequence differs: impl {len(calls)} calls, model {len(model['calls'])}")
+            if model["ess"] != _canon(it["ess"]):
+                problems.append(f"ess: impl {it['ess']!r} model {model['ess']}")
+            if it["hist_len"] == 0:
+                n = int(rw.n_particles)
+                if not (model["wtag"] == f"U{n}" and it["weights"].shape == (n,) and bool(np.all(it["weights"] == 1.0 / n))):
+                    problems.append("first iteration: weights are not uniform of length n_particles")
+                if _canon(it["logz"]) != _canon(0.0) or it["zcalls"]:
+                    problems.append(f"first iteration: logz {it['logz']!r}, Z calls {it['zcalls']}")
+            else:
+                same_as = {_canon(b) for b, w, _, _ in it["calls"] if w.shape == it["weights"].shape
+                           and bool(np.array_equal(w / np.sum(w), it["weights"]))}
+                if model["wtag"] not in same_as:
+                    problems.append(f"returned weights are those computed at beta in {sorted(same_as)}, model says {model['wtag']}")
+                if [_canon(b) for b, _ in it["zcalls"]] != model["zcalls"]:
+                    problems.append(f"Z calls: impl {[b for b, _ in it['zcalls']]}, model {model['zcalls']}")
+                elif it["zcalls"] and _canon(it["zcalls"][-1][1]) != _canon(it["logz"]):
+                    problems.append("recorded logz is not the value compute_logw_and_logz returned for the recorded beta")
+        if k == 0 and first_is_fresh and it["hist_len"] != 0:
+            problems.append("a fresh run started with a non-empty history")
+        if prev_beta is not None and _canon(prev_beta) != _canon(it["prev"]):
+            problems.append(f"state['beta'] changed between iterations: {prev_beta!r} -> {it['prev']!r}")
+        if it["iter_after"] != it["iter_before"] + 1:
+            problems.append("iter not incremented by one")
+        if not it.get("train_same", False) or not it.get("res_same", False):
+            problems.append("Trainer.run / Resampler.run did not receive the array Reweighter.run returned")
+        if _canon(it.get("beta_at_train")) != _canon(it["beta"]) or _canon(it.get("beta_at_resample")) != _canon(it["beta"]):
+            problems.append("state['beta'] differs when training/resampling run")
+        prev_beta = it["beta"]
+        nontrivial = model is not None and ("upLoop" in model["sub"] or "bis" in model["sub"] or model["branch"] == "firstIter")
+        c.case((cfg, k, line), nontrivial)
+        c.count("iterations")
+        c.count("oracle_calls", len(calls))
+        if problems:
+            c.disagree(input=line, impl="; ".join(problems), model=ans, run_cfg=cfg, iteration=k)
+
+
 def _corr_runs(tier, drv):
     c = Corr("whole-run", "bit-exact (Float model fed the oracle values of the real run)")
     cfgs = list(RUN_CONFIGS_QUICK)
@@ -600,68 +735,258 @@ def _corr_runs(tier, drv):
         if err:
             c.case(("run", cfg), False)
             c.disagree(input=cfg, impl=f"run raised {err}", model="-", run_cfg=cfg)
+            if "_TimedOut" in err or "oracle calls within one Reweighter.run" in err:
+                c.count("remaining_runs_skipped_after_a_non_terminating_run")
+                break       # the tie is broken; the remaining runs would each wait for their time limit
             continue
-        lines, metas = [], []
-        for k, it in enumerate(its):
-            cs, msg = _iter_case(it, cfg, rw)
-            if cs is None:
-                c.case(("run", cfg, k), False)
-                c.disagree(input=cfg, impl=msg, model="-", run_cfg=cfg, iteration=k)
-                continue
-            lines.append(_line(cs))
-            metas.append((k, it, cs))
-        res = drv.batch(lines)
-        prev_beta = None
-        for (k, it, cs), line, ans in zip(metas, lines, res):
-            model = _parse_model("F", ans)
-            calls = [_canon(b) for b, _, _, _ in it["calls"]]
-            problems = []
-            if model is None:
-                problems.append(f"model answered {ans}")
-            else:
-                c.count("branch:" + model["branch"])
-                for sb in model["sub"].split("+"):
-                    if sb != "-":
-                        c.count("sub:" + sb)
-                if model["beta"] != _canon(it["beta"]):
-                    problems.append(f"beta: impl {it['beta']!r} model {hex2f(model['beta']) if model['beta'] != 'nan' else 'nan'!r}")
-                if model["calls"] != calls:
-                    problems.append(f"oracle call sequence differs: impl {len(calls)} calls, model {len(model['calls'])}")
-                if model["ess"] != _canon(it["ess"]):
-                    problems.append(f"ess: impl {it['ess']!r} model {model['ess']}")
-                if k == 0 or it["hist_len"] == 0:
-                    n = int(rw.n_particles)
-                    if not (model["wtag"] == f"U{n}" and it["weights"].shape == (n,) and bool(np.all(it["weights"] == 1.0 / n))):
-                        problems.append("first iteration: weights are not uniform of length n_particles")
-                    if _canon(it["logz"]) != _canon(0.0) or it["zcalls"]:
-                        problems.append(f"first iteration: logz {it['logz']!r}, Z calls {it['zcalls']}")
-                else:
-                    same_as = {_canon(b) for b, w, _, _ in it["calls"] if w.shape == it["weights"].shape
-                               and bool(np.array_equal(w / np.sum(w), it["weights"]))}
-                    if model["wtag"] not in same_as:
-                        problems.append(f"returned weights are those computed at beta in {sorted(same_as)}, model says {model['wtag']}")
-                    if [_canon(b) for b, _ in it["zcalls"]] != model["zcalls"]:
-                        problems.append(f"Z calls: impl {[b for b, _ in it['zcalls']]}, model {model['zcalls']}")
-                    elif it["zcalls"] and _canon(it["zcalls"][-1][1]) != _canon(it["logz"]):
-                        problems.append("recorded logz is not the value compute_logw_and_logz returned for the recorded beta")
-            if prev_beta is not None and _canon(prev_beta) != _canon(it["prev"]):
-                problems.append(f"state['beta'] changed between iterations: {prev_beta!r} -> {it['prev']!r}")
-            if it["iter_after"] != it["iter_before"] + 1:
-                problems.append("iter not incremented by one")
-            if not it.get("train_same", False) or not it.get("res_same", False):
-                problems.append("Trainer.run / Resampler.run did not receive the array Reweighter.run returned")
-            if _canon(it.get("beta_at_train")) != _canon(it["beta"]) or _canon(it.get("beta_at_resample")) != _canon(it["beta"]):
-                problems.append("state['beta'] differs when training/resampling run")
-            prev_beta = it["beta"]
-            nontrivial = model is not None and ("upLoop" in model["sub"] or "bis" in model["sub"] or model["branch"] == "firstIter")
-            c.case((cfg, k, line), nontrivial)
-            c.count("iterations")
-            c.count("oracle_calls", len(calls))
-            if problems:
-                c.disagree(input=line, impl="; ".join(problems), model=ans, run_cfg=cfg, iteration=k)
+        _compare_iterations(c, cfg, its, rw, drv)
         betas = [it["beta"] for it in its]
+        c.count("mode:" + ("dyn" if cfg["vv"] is not None else "ess"))
+        # VV-mode and ESS-mode warm-up (theorem C05_cl_warmup_count): beta_k = 0 for every k < ess_ratio
+        for k, b in enumerate(betas):
+            if k < cfg["ess_ratio"]:
+                c.count("warmup_iterations_checked")
+                if b != 0.0:
+                    c.disagree(input=cfg, impl=f"iteration {k} left beta = 0 although the pool ({k}*n) is smaller than the ESS target",
+                               model="beta_k = 0 for k < ess_ratio", run_cfg=cfg, iteration=k)
         c.sample({"config": cfg, "beta_sequence": betas}, cap=3)
     return c
+
+
+# ================================================================== (iv-b) resumed / continued / extended runs
+RESUME_CONFIGS = [
+    dict(seed=11, vv=None, n_particles=16, ess_ratio=2.0, n_total=64, how="path"),
+    dict(seed=12, vv=0.5, n_particles=16, ess_ratio=2.0, n_total=64, how="load"),
+    dict(seed=13, vv=None, n_particles=16, ess_ratio=1.0, n_total=48, how="load", resample="syst"),
+    dict(seed=14, vv=0.1, n_particles=16, ess_ratio=2.0, n_total=48, how="path"),
+    dict(seed=15, vv=None, n_particles=16, ess_ratio=2.0, n_total=48, how="extend"),
+    dict(seed=16, vv=0.5, n_particles=16, ess_ratio=2.0, n_total=48, how="extend"),
+]
+
+
+def _resume_run(cfg):
+    """run A (uninstrumented, `save_every=2`) to completion; then, per `how`:
+         path    a NEW sampler: run(resume_state_path=<a checkpoint from the middle of A>)
+         load    a NEW sampler: load_state(<that checkpoint>) then run()                      (the branch added in /repo aeb0399)
+         extend  the SAME sampler: a second run() with a larger n_total                        (same branch)
+       returns a dict with A's recorded schedule, the restored state and the observed iterations of the continuation"""
+    import shutil
+    import tempfile
+    import dill
+    from . import witnesses
+    d = tempfile.mkdtemp(prefix="c05res_")
+    out = {"cfg": cfg}
+    try:
+        kw = _sampler_kwargs(cfg)
+        with _quiet():
+            a = witnesses._mk_sampler(output_dir=d, output_label="a", **kw)
+        err = _run_quiet(lambda: a.run(n_total=cfg["n_total"], progress=False, save_every=2))
+        if err:
+            out["error"] = f"run A raised {err}"
+            return out
+        out["betas_A"] = [float(b) for b in a.state._history["beta"]]
+        out["iters_A"] = [int(i) for i in a.state._history["iter"]]
+        if cfg["how"] == "extend":
+            out["saved_beta"], out["saved_iter"], out["saved_len"] = (float(a.state.get_current("beta")), int(a.state.get_current("iter")),
+                                                                   a.state.get_history_length())
+            its = _instrument(a, 60)
+            err = _run_quiet(lambda: a.run(n_total=4 * cfg["n_total"], progress=False))
+            b = a
+        else:
+            files = sorted((f for f in os.listdir(d) if f.startswith("a_") and f[2:-6].isdigit()), key=lambda f: int(f[2:-6]))
+            if not files:
+                out["error"] = "run A wrote no periodic checkpoint"
+                return out
+            path = os.path.join(d, files[len(files) // 2])
+            with open(path, "rb") as fh:
+                dd = dill.load(fh)
+            out["saved_beta"], out["saved_iter"] = float(dd["_current"]["beta"]), int(dd["_current"]["iter"])
+            out["saved_len"] = len(dd["_history"]["beta"])
+            with _quiet():
+                b = witnesses._mk_sampler(**kw)
+            its = _instrument(b, 60)
+            if cfg["how"] == "path":
+                err = _run_quiet(lambda: b.run(n_total=cfg["n_total"], progress=False, resume_state_path=path))
+            else:
+                def go():
+                    b.load_state(path)
+                    b.run(n_total=cfg["n_total"], progress=False)
+                err = _run_quiet(go)
+        if err:
+            out["error"] = f"the continuation raised {err}"
+        out["its"], out["rw"] = its, b._core.reweighter
+        out["betas_B_hist"] = [float(x) for x in b.state._history["beta"]]
+        return out
+    finally:
+        shutil.rmtree(d, ignore_errors=True)
+
+
+def _resume_problem(r):
+    """what C05 says about a continued run (theorems C05_resume_schedule / C05_continue_schedule / C05_resume_exact), on the real run"""
+    if "error" in r:
+        return r["error"]
+    cfg, its = r["cfg"], r["its"]
+    if not its:
+        return None if cfg["how"] == "extend" else "the resumed run executed no iteration although the checkpoint is from the middle of the run"
+    first = its[0]
+    if first["hist_len"] != r["saved_len"]:
+        return f"the continuation started with {first['hist_len']} stored iterations, the restored state holds {r['saved_len']}"
+    if _canon(first["prev"]) != _canon(r["saved_beta"]):
+        return (f"the continuation started its schedule from beta = {first['prev']!r}; the restored state was at beta = "
+                f"{r['saved_beta']!r} (the schedule restarted)")
+    if first["iter_before"] != r["saved_iter"]:
+        return f"the continuation numbered its first iteration from iter = {first['iter_before']}, restored iter = {r['saved_iter']}"
+    last = r["saved_beta"]
+    for k, it in enumerate(its):
+        if not (last <= it["beta"] <= 1.0):
+            return f"continued iteration {k}: beta went from {last!r} to {it['beta']!r}"
+        last = it["beta"]
+    whole = r["betas_B_hist"]
+    if any(b2 < b1 for b1, b2 in zip(whole, whole[1:])):
+        return f"the recorded schedule of the continued run decreases: {whole}"
+    if cfg["how"] in ("path", "load") and not cfg.get("clustering", False):
+        # same stream position, no trainer state: the continuation IS the remainder of run A (C05_resume_exact)
+        if [_canon(b) for b in whole] != [_canon(b) for b in r["betas_A"]]:
+            return f"resumed schedule {whole} differs from the uninterrupted schedule {r['betas_A']}"
+    return None
+
+
+def _corr_resume(tier, drv):
+    c = Corr("resume-run", "bit-exact (Float model fed the oracle values of the continued run; schedule vs the uninterrupted run)")
+    cfgs = list(RESUME_CONFIGS)
+    if tier != "quick":
+        rng = common.rng_for("C05.resume")
+        for i in range(18):
+            cfgs.append(dict(seed=300 + i, vv=rng.choice([None, 0.5, 0.1, 0.05]), n_particles=rng.choice([16, 24]),
+                             ess_ratio=rng.choice([1.0, 2.0, 3.0]), n_total=rng.choice([48, 96]), how=rng.choice(["path", "load", "extend"]),
+                             resample=rng.choice(["mult", "syst"]), like_scale=rng.choice([1.0, 5.0])))
+    for cfg in cfgs:
+        r = _resume_run(cfg)
+        c.count("how:" + cfg["how"])
+        c.count("mode:" + ("dyn" if cfg["vv"] is not None else "ess"))
+        prob = _resume_problem(r)
+        c.case(("resume", cfg), bool(r.get("its")))
+        if prob:
+            c.disagree(input=cfg, impl=prob, model="continues from the restored beta", resume_cfg=cfg)
+            if "_TimedOut" in prob or "oracle calls within one Reweighter.run" in prob:
+                c.count("remaining_runs_skipped_after_a_non_terminating_run")
+                break
+            continue
+        c.count("continued_iterations", len(r["its"]))
+        c.count("advances_after_resume", sum(1 for it in r["its"] if it["beta"] != it["prev"]))
+        _compare_iterations(c, cfg, r["its"], r["rw"], drv, first_is_fresh=False)
+        c.sample({"config": cfg, "saved_beta": r["saved_beta"], "continued_betas": [it["beta"] for it in r["its"]]}, cap=3)
+    return c
+
+
+def oracle_resume(cfg):
+    return _resume_problem(_resume_run(cfg))
+
+
+# ================================================================== (vii) the closed-loop model (tie of Props/C05Closed, C05Resume)
+CL_CONFIGS = [dict(kernel="tpcn", resample="mult", clustering=False, vv=0.5), dict(kernel="rwm", resample="syst", clustering=False, vv=0.05),
+              dict(kernel="tpcn", resample="syst", clustering=True, vv=0.1), dict(kernel="rwm", resample="mult", clustering=False, vv=None),
+              dict(kernel="tpcn", resample="syst", clustering=True, vv=None)]
+
+
+CL_MAX_ITER = 80
+
+
+def _cl_truncated(t):
+    """the recorder's own iteration cap (a slowly advancing run): a truncation, not an error"""
+    return t.error is not None and t.error[0] == "RuntimeError" and len(t.iters) >= CL_MAX_ITER
+
+
+def _cl_record(cfg, seed):
+    from . import c10cl
+    with _time_limit(RUN_SECONDS):
+        return c10cl.record_run(cfg, 0.0, seed, n=16, n_total=96 if cfg["resample"] == "syst" else 48, max_iter=CL_MAX_ITER)
+
+
+def _cl_trace_problem(t):
+    """C05 on an instrumented whole run (harness/c10cl.py): what the closed-loop theorems assume of the world and conclude"""
+    n, core = t.n, t.s._core
+    ratio, vv = core.config.ess_ratio, core.config.volume_variation
+    if t.error and t.error[0] == "_TimedOut":
+        return f"the run did not finish within {RUN_SECONDS} s (a search loop of the reweighting step does not terminate?)"
+    if t.error and not _cl_truncated(t):
+        return f"run raised {t.error}"
+    for k, dr in enumerate(t.draws):
+        if len(dr) != n:
+            return f"warm-up iteration {k} drew {len(dr)} prior samples, n_particles = {n}"       # hypothesis of C05_cl_warmup
+    betas = [i["beta"] for i in t.iters]
+    if betas and betas[0] != 0.0:
+        return f"the schedule starts at beta = {betas[0]!r}"
+    for k, (a, b) in enumerate(zip(betas, betas[1:])):
+        if not (a <= b <= 1.0):
+            return f"iteration {k + 1}: beta went from {a!r} to {b!r}"
+    for k, b in enumerate(betas):
+        if k < ratio and b != 0.0:
+            return f"iteration {k} left beta = 0 although the pool ({k}*n) is smaller than ess_ratio*n"
+    target = ratio * n
+    for k, (it, calls) in enumerate(zip(t.iters, t.metric_calls)):
+        if k == 0 or not calls:
+            continue
+        at = [e for (b, e, _m) in calls if b == it["beta"]]
+        if not at:
+            return f"iteration {k}: no oracle call was made at the recorded beta {it['beta']!r}"
+        if _canon(at[-1]) != _canon(it["ess"]):
+            return f"iteration {k}: recorded ESS {it['ess']!r} is not the ESS computed at the recorded beta ({at[-1]!r})"
+        if vv is None and it["beta"] != betas[k - 1] and not (it["ess"] >= target):
+            return f"iteration {k}: ESS mode advanced to beta = {it['beta']!r} where ESS = {it['ess']!r} < target {target!r}"
+    for k, (tw, rw_) in enumerate(zip(t.train_w, t.res_w)):
+        if tw.shape != rw_.shape or not np.allclose(tw / np.sum(tw), rw_ / np.sum(rw_), rtol=1e-9, atol=0):
+            return f"iteration {k}: Trainer.run and Resampler.run were handed different weights"
+    return None
+
+
+def _corr_closed(tier, drv):
+    """instrumented whole runs replayed by the closed-loop model `cl.F` (suite owned by C10; re-run here in both metric modes
+       because the theorems of Props/C05Closed.lean / C05Resume.lean are stated about that model)"""
+    from . import c10cl
+    rng = common.rng_for("C05.closed")
+    c = Corr("dep:closed-loop-replay", "toleranced Float (decisions exact, near-ties counted)")
+    cfgs = list(CL_CONFIGS)
+    if tier != "quick":
+        cfgs = cfgs * 3 + [dict(kernel=k, resample=r_, clustering=cl, vv=v) for k in ("tpcn", "rwm") for r_ in ("mult", "syst")
+                           for cl in (False, True) for v in (0.5, 0.2, 0.03)]
+    items, lines = [], []
+    for cfg in cfgs:
+        seed = rng.randrange(2 ** 31)
+        t = _cl_record(cfg, seed)
+        info = {"config": cfg, "seed": seed}
+        betas = [i["beta"] for i in t.iters]
+        c.case((cfg, seed), any(b > 0 for b in betas))
+        c.count("mode:" + ("dyn" if cfg["vv"] is not None else "ess"))
+        c.count("iterations", len(betas))
+        c.count("warmup_iterations", sum(1 for b in betas if b == 0.0))
+        c.count("advances", sum(1 for a, b in zip(betas, betas[1:]) if b != a))
+        prob = _cl_trace_problem(t)
+        if prob:
+            c.disagree(input=info, impl=prob, model="C05 on the instrumented run", cl_cfg=cfg, cl_seed=seed)
+            if t.error and t.error[0] == "_TimedOut":
+                c.count("remaining_runs_skipped_after_a_non_terminating_run")
+                break
+            continue
+        if t.error is None:
+            items.append((t, info))
+            lines.append(c10cl.model_line(t))
+        else:
+            c.count("runs_truncated_at_the_iteration_cap")
+    for (t, info), ans in zip(items, drv.batch(lines)):
+        prob, tie = c10cl.compare_model(t, ans)
+        for br in c10cl.model_branches(ans):
+            c.count("branch:" + br)
+        if tie:
+            c.near_ties += 1
+        elif prob:
+            c.disagree(input=info, impl=prob, model=ans[:200], cl_cfg=info["config"], cl_seed=info["seed"])
+        c.sample({"config": info["config"], "betas": [round(i["beta"], 4) for i in t.iters]}, cap=2)
+    return c
+
+
+def oracle_closed(cfg, seed):
+    return _cl_trace_problem(_cl_record(cfg, seed))
 
 
 # ================================================================== (v) direct calls of the two search functions
@@ -840,12 +1165,16 @@ def _corr_pipeline(tier, drv):
         rec.s._core.n_total = 3 * n
         try:
             k = 0
-            while rec.s._core._not_termination() and k < 14:
-                rec.iteration()
-                k += 1
+            with _time_limit(RUN_SECONDS):
+                while rec.s._core._not_termination() and k < 14:
+                    rec.iteration()
+                    k += 1
         except Exception as e:  # noqa
             c.case(cfg, False)
             c.disagree(input=cfg, impl=f"raised {type(e).__name__}: {e}", model="runs")
+            if isinstance(e, _TimedOut):
+                c.count("remaining_runs_skipped_after_a_non_terminating_run")
+                break
             continue
         recs.append((rec, cfg))
         lines.append(rec.model_line())
@@ -910,15 +1239,15 @@ def _compare_schedule(rec, answer, close, ratio):
 
 
 def translators():
-    from translate import g1_constants
-    return [g1_constants.generate()]
+    from translate import g1_constants, g10_reweight
+    return [g1_constants.generate(), g10_reweight.generate()]
 
 
 def correspond(tier):
     drv = common.Driver()
     out = [_corr_constants(), _corr_decision(tier, drv, "Q"), _corr_decision(tier, drv, "F"),
            _corr_direct(tier, drv, "Q"), _corr_direct(tier, drv, "F"), _corr_oracle(tier), _corr_runs(tier, drv),
-           _corr_pipeline(tier, drv)]
+           _corr_resume(tier, drv), _corr_pipeline(tier, drv), _corr_closed(tier, drv)]
     return out
 
 
@@ -1000,6 +1329,14 @@ def oracle_history(hist, d, mode_vv, ratio, n):
     sm.set_current("beta", prev)
     rw = Reweighter(sm, None, n, ratio, mode_vv, ESS_TOLERANCE=config.ESS_TOLERANCE, BETA_TOLERANCE=config.BETA_TOLERANCE)
     betas, zs, batches = _hist_arrays(sm)
+    orig, ncalls = rw._compute_metric_and_weights, [0]
+
+    def budgeted(beta):
+        ncalls[0] += 1
+        if ncalls[0] > CALL_BUDGET:
+            raise RuntimeError(f"more than {CALL_BUDGET} oracle calls within one Reweighter.run (a search loop does not terminate)")
+        return orig(beta)
+    rw._compute_metric_and_weights = budgeted
     try:
         with warnings.catch_warnings():
             warnings.simplefilter("ignore")
@@ -1044,6 +1381,8 @@ def oracle_run(cfg):
     last = None
     for k, it in enumerate(its):
         beta = it["beta"]
+        if k < rw.ess_ratio and beta != 0.0 and k > 0:
+            return f"iteration {k}: beta = {beta!r} although the pool ({k}*n_particles) is smaller than the ESS target (warm-up)"
         if k == 0:
             n = int(rw.n_particles)
             if beta != 0.0:
@@ -1061,7 +1400,8 @@ def oracle_run(cfg):
         if not it.get("train_same", False) or not it.get("res_same", False):
             return f"iteration {k}: Trainer.run / Resampler.run did not receive the weights Reweighter.run returned"
         if _canon(it.get("beta_at_train")) != _canon(beta) or _canon(it.get("beta_at_resample")) != _canon(beta):
-            return f"iteration {k}: training/resampling ran at state beta {it.get('beta_at_train')!r}, recorded {beta!r}"
+            return (f"iteration {k}: Reweighter.run recorded beta = {beta!r}, but state['beta'] was {it.get('beta_at_train')!r} when "
+                    f"Trainer.run was called and {it.get('beta_at_resample')!r} when Resampler.run was called")
         last = beta
     return None
 
@@ -1095,6 +1435,14 @@ def search(tier, hints):
                     msg = oracle_history(hist, d, h.get("vv"), ratio, n)
                     if msg and add(_fail("history", msg, hist=h["hist"], vv=h.get("vv"), ratio=ratio, n=n)):
                         return found
+            elif "resume_cfg" in h:
+                msg = oracle_resume(h["resume_cfg"])
+                if msg and add(_fail("resume", msg, resume_cfg=h["resume_cfg"])):
+                    return found
+            elif "cl_cfg" in h:
+                msg = oracle_closed(h["cl_cfg"], h["cl_seed"])
+                if msg and add(_fail("closed", msg, cl_cfg=h["cl_cfg"], cl_seed=h["cl_seed"])):
+                    return found
             elif "run_cfg" in h:
                 msg = oracle_run(h["run_cfg"])
                 if msg and add(_fail("run", msg, run_cfg=h["run_cfg"])):
@@ -1130,6 +1478,13 @@ def search(tier, hints):
         msg = oracle_run(cfg)
         if msg and add(_fail("run", msg, run_cfg=cfg)):
             return found
+    if found:
+        return found
+    # 5. resumed / continued / extended runs
+    for cfg in RESUME_CONFIGS:
+        msg = oracle_resume(cfg)
+        if msg and add(_fail("resume", msg, resume_cfg=cfg)):
+            return found
     return found
 
 
@@ -1148,6 +1503,10 @@ def replay(obj):
         msg = oracle_history(hist, d, f.get("vv"), f["ratio"], f["n"])
     elif kind == "run":
         msg = oracle_run(f["run_cfg"])
+    elif kind == "resume":
+        msg = oracle_resume(f["resume_cfg"])
+    elif kind == "closed":
+        msg = oracle_closed(f["cl_cfg"], f["cl_seed"])
     else:
         return {"fails": False, "detail": f"nothing to replay for kind={kind!r}"}
     return {"fails": msg is not None, "detail": msg}
